@@ -1336,4 +1336,89 @@ class RoundTripBounded(Bounded):
         return (o.pairing(x) != z or any(c < 0 for c in x), {"z": z, "projection": list(x), "pairing_back": o.pairing(x)})
 
 
-BOUNDED = [StatesEnumerationBounded(), RoundTripBounded()]
+class LargeIndexBounded(Bounded):
+    """B2 (native, sampled): the integer maps beyond the range of exact floating point (the contracts model sqrt / division as
+    exact, assumption A1-exception): RosenbergStrong in dimension 3 at the last indices of the shells m = 10^6, 7*10^7,
+    10^8 (indices up to 10^24), Szudzik / RosenbergStrong / Cantor in dimension 2 around squares up to 10^30, and the signed
+    extension PairingToZd over RosenbergStrong: pairing(projection(z)) == z with natural coordinates."""
+    name = "bounded:large-indices"
+
+    def run(self, tier, seed):
+        from rpylib.distribution import pairing as P_
+        ev, viol, samples = 0, [], []
+        rs = P_.RosenbergStrong()
+        pts = []
+        for m in (10 ** 6, 7 * 10 ** 7, 10 ** 8):
+            aux = (m + 1) ** 2 - m ** 2
+            pts += [(3, m ** 3 + m ** 2 + k * aux - 1) for k in (m, m - 1, m // 2, 1)]
+        for d, z in pts:
+            ev += 1
+            try:
+                x = tuple(int(v) for v in rs.projection(z, d))
+                ok = len(x) == d and all(c >= 0 for c in x) and rs.pairing(x) == z
+            except Exception as e:
+                ok, x = False, f"{type(e).__name__}: {e}"
+            if not ok:
+                viol.append({"obligation": f"{self.name}[RosenbergStrong,d=3]::pairing-of-projection-is-the-index", "bounded": self.name,
+                             "witness": {"z": str(z), "projection": x if isinstance(x, str) else [str(c) for c in x]}})
+                break
+        for name in ("Szudzik", "RosenbergStrong", "Cantor"):
+            o = getattr(P_, name)()
+            for r in (10 ** 8 + 7, 94906266, 10 ** 12 + 39, 10 ** 15 + 37):
+                for z in (r * r - 1, r * r, r * r + r, r * r + 2 * r):
+                    ev += 1
+                    try:
+                        x = tuple(int(v) for v in o.projection2d(z))
+                        ok = all(c >= 0 for c in x) and o.pairing2d(*x) == z
+                    except Exception as e:
+                        ok, x = False, f"{type(e).__name__}: {e}"
+                    if not ok:
+                        viol.append({"obligation": f"{self.name}[{name},d=2]::pairing-of-projection-is-the-index", "bounded": self.name,
+                                     "witness": {"z": str(z), "projection": x if isinstance(x, str) else [str(c) for c in x]}})
+                        break
+        ev += 1
+        signed = P_.PairingToZd(P_.RosenbergStrong(), dimension=3, omit_zero=True)
+        idx = 343000014700000069999998
+        st = tuple(int(v) for v in signed.project(idx))
+        if signed.pair(st) != idx:
+            viol.append({"obligation": f"{self.name}[PairingToZd(RosenbergStrong),d=3]::index-of-state-inverts-state-of-index", "bounded": self.name,
+                         "witness": {"index": str(idx), "state": [str(c) for c in st], "pair(state)": str(signed.pair(st))}})
+        return {"name": self.name, "evaluations": ev, "distinct_nontrivial": ev, "violations": viol, "samples": samples,
+                "bound": "12 indices of three 3-d shells up to 10^24; 48 indices around squares up to 10^30 for three 2-d maps; one signed 3-d index"}
+
+    def replay(self, rec):
+        r = self.run("quick", 0)
+        hit = [v for v in r["violations"] if v["obligation"] == rec["obligation"]]
+        return (bool(hit), hit[0]["witness"] if hit else {})
+
+
+class DivisorSummatoryLargeBounded(Bounded):
+    """B2 (native, thorough tier only, one evaluation of ~1e8 terms): numbers.a_n (divisor summatory function, the index map of
+    the hyperbolic pairing) at n = 94906266^2 - 1 > 2^53, where floor(sqrt(n)) in floating point is off by one, against an
+    independent chunked integer evaluation of 2 sum_{k <= isqrt(n)} n // k - isqrt(n)^2."""
+    name = "bounded:divisor-summatory-beyond-2^53"
+    tier = "thorough"
+
+    def run(self, tier, seed):
+        if tier != "thorough":
+            return {"name": self.name, "evaluations": 0, "distinct_nontrivial": 0, "violations": [], "samples": [], "bound": "thorough tier only"}
+        import math
+        import numpy as np
+        from rpylib.numerical.numbers import a_n
+        n = 94906266 ** 2 - 1
+        r = math.isqrt(n)
+        tot, step = 0, 5_000_000
+        for lo in range(1, r + 1, step):
+            ks = np.arange(lo, min(lo + step, r + 1), dtype=np.int64)
+            tot += int(np.sum(np.int64(n) // ks))
+        want = 2 * tot - r * r
+        got = int(a_n(n))
+        viol = [] if got == want else [{"obligation": f"{self.name}::a_n-is-the-divisor-summatory-function", "bounded": self.name, "witness": {"n": str(n), "a_n": str(got), "exact": str(want)}}]
+        return {"name": self.name, "evaluations": 1, "distinct_nontrivial": 1, "violations": viol, "samples": [{"n": str(n), "a_n": str(got)}], "bound": "one index"}
+
+    def replay(self, rec):
+        r = self.run("thorough", 0)
+        return (bool(r["violations"]), r["violations"][0]["witness"] if r["violations"] else {})
+
+
+BOUNDED = [StatesEnumerationBounded(), RoundTripBounded(), LargeIndexBounded(), DivisorSummatoryLargeBounded()]
